@@ -596,13 +596,16 @@ def key_to_ascending_key(key: GetItemKeyType, size: int) -> GetItemKeyType:
         # array first as not truthy
         if key.dtype == bool: #type: ignore
             return key # a Boolean selector is positional already
+        # negative positions count from the end: normalise before sorting
+        key = np.where((key < 0) & (key >= -size), key + size, key) #type: ignore
         return np.sort(key, kind=DEFAULT_SORT_KIND)
 
     if not len(key): #type: ignore
         return key
 
     if isinstance(key, list):
-        return sorted(key)
+        # negative positions count from the end: normalise before sorting
+        return sorted(k + size if -size <= k < 0 else k for k in key)
 
     if isinstance(key, Series):
         return key.sort_index()
